@@ -17,9 +17,20 @@ use roto::{
 
 use crate::jsonw::J;
 use crate::rng::Rng;
-use crate::work::{Args, CaseOut, Family, catch, hash_str, panic_sig};
+use crate::work::{Args, CaseOut, Family, catch, hash_str};
 
 const DOC: &str = "harness item";
+
+/// `panic@<file of the panic site>`: neither the line nor the message take part, because
+/// the same defect panics with different messages in debug and release builds (overflow
+/// check vs slice index); the input class appended by the caller identifies the finding.
+fn panic_sig(msg: &str) -> String {
+    let loc = msg.split(": ").next().unwrap_or(msg);
+    let file = loc.rsplit_once(':').map(|x| x.0).unwrap_or(loc);
+    let file = file.trim_start_matches("/repo/");
+    let file = if let Some(i) = file.find("/library/") { &file[i + 1..] } else { file };
+    format!("panic@{file}")
+}
 /// payload of the `Val<T>` argument handed to probes
 const X: i32 = 5;
 const N_POOL: usize = 8;
@@ -952,9 +963,19 @@ impl Model {
                 let via = if sc.is_type { format!("declared:type-scope:d{}", sp.len() - 1) } else { format!("declared:d{}", sp.len()) };
                 out.push((p, d.clone(), via));
             }
+            // An import makes the item available *by name in the scope of the `use`*
+            // (language reference, "Imports": "available by name in the current scope",
+            // "Imported modules are not available in other modules"); imports are not
+            // re-exported through the module path. Script code only ever sits below the
+            // root scope, so only imports of the root are observable: a `use` inside
+            // `mod m` is checked by its verdict and by the negative probes (it must not
+            // leak into the root), not by probing `m.<name>`.
+            if !sp.is_empty() {
+                continue;
+            }
             for (name, imp) in &sc.imports {
                 let Some(d) = self.lookup(&imp.target) else { continue };
-                let at = if sp.is_empty() { "root" } else { "nested" };
+                let at = "root";
                 let mut p = sp.clone();
                 p.push(name.clone());
                 match d {
@@ -2523,7 +2544,9 @@ fn fixed(k: u64) -> Fixed {
                 },
                 true,
             )],
-            probes: vec![("fn@use:len2:nested", "m.f()", 61), ("fn@declared:d2", "m.n.f()", 61)],
+            // the import lives in the scope of `m`, which no script can enter: only the
+            // verdict and the declared path are checked
+            probes: vec![("fn@declared:d2", "m.n.f()", 61)],
         },
         7 => Fixed {
             name: "macro:same-library-twice",
